@@ -492,7 +492,82 @@ fn populous_suite(run: &mut Run, rng: &mut Rng, deep: bool) {
     }
 }
 
+/// `Lookup::projections()` — the real path by which `Layer::grow` obtains a layer's points — on a complete
+/// synthetic flop lookup (deterministic bucket per flop class), under the multi-threaded rayon pool:
+/// point i must be the histogram of the i-th class of IsomorphismIterator::from(Street::Pref), computed
+/// here sequentially from Observation::children + the same lookup.
+fn projection_suite(run: &mut Run, deep: bool) {
+    use robopoker::clustering::lookup::Lookup;
+    const K: usize = 24;
+    let bucket = |iso: &Isomorphism| -> usize {
+        let mut x = i64::from(*iso) as u64;
+        x = (x ^ (x >> 30)).wrapping_mul(0xBF58476D1CE4E5B9);
+        x = (x ^ (x >> 27)).wrapping_mul(0x94D049BB133111EB);
+        ((x ^ (x >> 31)) % K as u64) as usize
+    };
+    let mut flop = BTreeMap::<Isomorphism, Abstraction>::new();
+    let mut truth: Vec<BTreeMap<Abstraction, usize>> = vec![];
+    let classes: Vec<Isomorphism> = IsomorphismIterator::from(Street::Pref).collect();
+    for pref in &classes {
+        let mut counts = BTreeMap::new();
+        for child in pref.0.children() {
+            let iso = Isomorphism::from(child);
+            let ab = Abstraction::from((Street::Flop, bucket(&iso)));
+            flop.insert(iso, ab);
+            *counts.entry(ab).or_insert(0usize) += 1;
+        }
+        truth.push(counts);
+    }
+    run.spec_checked += 1;
+    if classes.len() != Street::Pref.n_isomorphisms() || flop.len() != Street::Flop.n_isomorphisms() {
+        run.fail("projection-setup", "synthetic flop lookup", &format!("{} classes, {} flop entries", Street::Pref.n_isomorphisms(), Street::Flop.n_isomorphisms()), &format!("{} / {}", classes.len(), flop.len()));
+    }
+    let lookup = Lookup::from(flop);
+    let mut op = format!("proj {}", truth.len());
+    for t in &truth {
+        let _ = write!(op, " {} {}", t.len(), t.values().sum::<usize>());
+        for (a, c) in t { let _ = write!(op, " {} {}", code(a), c); }
+    }
+    for round in 0..(if deep { 4 } else { 2 }) {
+        let points = catch(AssertUnwindSafe(|| lookup.projections()));
+        run.evaluations += truth.len() as u64;
+        let points = match points {
+            Some(p) => p,
+            None => { run.line(&op, "panic"); run.fail("projection-panics", "Lookup::projections", "points", "panic"); continue; }
+        };
+        let mut ans = format!("{}", points.len());
+        for p in &points { ans.push_str(&hist_ans(p)); }
+        run.line(&op, &ans);
+        run.distinct(&(op.len(), round));
+        run.spec_checked += 1;
+        if points.len() != truth.len() {
+            run.fail("projection-count", "Lookup::projections on a complete flop lookup", &format!("{} points", truth.len()), &format!("{}", points.len()));
+        }
+        let mut misplaced = vec![];
+        for (i, (p, t)) in points.iter().zip(truth.iter()).enumerate() {
+            run.spec_checked += 1;
+            let got: BTreeMap<Abstraction, usize> = p.verif_counts().into_iter().collect();
+            if &got != t || p.verif_mass() != t.values().sum::<usize>() { misplaced.push(i); }
+        }
+        if let Some(&i) = misplaced.first() {
+            // which class's histogram sits at position i instead?
+            let got: BTreeMap<Abstraction, usize> = points[i].verif_counts().into_iter().collect();
+            let whose = truth.iter().position(|t| *t == got);
+            run.fail("projection-point-not-at-its-isomorphism-position",
+                &format!("Lookup::projections (round {round}), synthetic flop lookup bucket = splitmix(iso) mod {K}: {} of {} points misplaced; first: position {i} = class {}", misplaced.len(), points.len(), classes[i].0),
+                &format!("histogram of class {i}: {:?}", truth[i].iter().map(|(a, c)| (a.index(), *c)).collect::<Vec<_>>()),
+                &format!("histogram of class {:?}: {:?}", whose.map(|w| format!("{w} ({})", classes[w].0)), got.iter().map(|(a, c)| (a.index(), *c)).collect::<Vec<_>>()));
+        }
+        run.count("projections-preflop-from-full-flop-lookup");
+    }
+    run.notes.push("Lookup::projections exercised for preflop <- complete synthetic flop lookup (1,286,792 entries); flop <- turn would need a complete 13,960,050-entry turn lookup and is not exercised".into());
+}
+
 fn main() {
+    // the clustering code runs on rayon's global pool: make sure it has several workers
+    if std::env::var_os("RAYON_NUM_THREADS").is_none() {
+        std::env::set_var("RAYON_NUM_THREADS", "8");
+    }
     let a = args();
     let mut rng = Rng::new(a.seed);
     let mut run = Run::new(&a.out);
@@ -648,8 +723,9 @@ fn main() {
     }
     multistep_suite(&mut run, &mut rng, deep);
     populous_suite(&mut run, &mut rng, deep);
+    projection_suite(&mut run, deep);
     run.rule = format!(
-        "populous layers (centroids beyond 65,536 and 131,072 samples, 3 steps, f64 oracle at every step) and density probes at masses around 2^16, 2^24, 2^32; multi-step runs on one thread (re-seeded and Lloyd, >= 5 steps, centroids of every step at the addresses of the step before, equal masses and support sizes) with the nearest-centroid oracle recomputed from scratch in f64 at every step; near-tie layers (point-mass point, point-mass centroid, spread centroid within 1 %); {} synthetic layers: Turn (points = equity histograms over the 101 river buckets, emd = Equity::variation, 1..150 centroids incl. 144), Flop and Pref (points over 24 learned abstractions with a line metric, emd = Sinkhorn, 1..16 centroids); 10..500 points with duplicated points, duplicated centroids (ties), an empty centroid (NaN distance), more centroids than street.k(); per layer every point's neighborhood, one next(), lookup() (Flop/Turn, zipped with the real IsomorphismIterator) and metric(); pair keys of the real cluster counts 169/128/144 exhaustively. distinct = distinct op lines",
+        "Lookup::projections on a complete synthetic flop lookup under an 8-thread pool, twice, every preflop point compared with the independently computed histogram of its class; populous layers (centroids beyond 65,536 and 131,072 samples, 3 steps, f64 oracle at every step) and density probes at masses around 2^16, 2^24, 2^32; multi-step runs on one thread (re-seeded and Lloyd, >= 5 steps, centroids of every step at the addresses of the step before, equal masses and support sizes) with the nearest-centroid oracle recomputed from scratch in f64 at every step; near-tie layers (point-mass point, point-mass centroid, spread centroid within 1 %); {} synthetic layers: Turn (points = equity histograms over the 101 river buckets, emd = Equity::variation, 1..150 centroids incl. 144), Flop and Pref (points over 24 learned abstractions with a line metric, emd = Sinkhorn, 1..16 centroids); 10..500 points with duplicated points, duplicated centroids (ties), an empty centroid (NaN distance), more centroids than street.k(); per layer every point's neighborhood, one next(), lookup() (Flop/Turn, zipped with the real IsomorphismIterator) and metric(); pair keys of the real cluster counts 169/128/144 exhaustively. distinct = distinct op lines",
         cases.len());
     run.finish();
 }
